@@ -101,8 +101,11 @@ class FocalLoss(Operation):
         return loss
 
     def backward_var(self, grad, index, **kwargs):
-        self.back[self.label_locs] *= grad
-        return self.back
+        # (the cached derivative must survive this call unchanged: the operation
+        # can be back-propagated through again after an aborted pass)
+        back = self.back.copy()
+        back[self.label_locs] *= grad
+        return back
 
 
 def focal_loss(
